@@ -755,8 +755,9 @@ class QuicConnection:
         """
         payload_length = len(data)
 
-        # stop handling packets when closing
-        if self._state in END_STATES:
+        # stop handling packets when closing, or once a close has been decided
+        # (the CONNECTION_CLOSE is only sent by the next datagrams_to_send())
+        if self._state in END_STATES or self._close_pending:
             return
 
         # log datagram
